@@ -365,7 +365,7 @@ func e2eChild(c *vkit.Ctx) {
 		sc.ProcessLevel = true // run.Run with the reloader in its own process, reloaded with SIGHUP, stopped with SIGTERM
 	}
 	nReload := 2 + r.Intn(4)
-	if idx%len(variants) == 0 {
+	if idx%len(variants) == 0 && idx != 1020 {
 		// "queued chunks of the old pipelines are taken over", deterministically: the upstream refuses connections for a while,
 		// one key set sends everything at the start (backlog in memory and on disk), one valid reload happens during the
 		// refusal, and that key set never sends again - only the take-over by the new pipelines can deliver its chunks
@@ -383,7 +383,7 @@ func e2eChild(c *vkit.Ctx) {
 		}
 		sc.Gens = []e2e.GenSpec{{Conns: cs, UpScript: [][]upstream.Step{{{Kind: "refuse", DelayMs: 400}}}, WaitAcked: true},
 			{UpScript: make([][]upstream.Step, 1), WaitAcked: true}}
-		if idx >= 1000 {
+		if idx == 1000 || idx == 1010 {
 			// the same with two outputs of which only the SECOND is refusing: the first output's queue directory is empty at the
 			// reload, the key set's chunks are queued under the second output's root only (seeded c17-s6: queue ids scanned from
 			// the first output's root alone)
@@ -393,8 +393,23 @@ func e2eChild(c *vkit.Ctx) {
 		}
 		nReload = 1
 	}
+	movedInputField := idx == 1020
+	if movedInputField {
+		// "a reload with an incompatible configuration leaves the agent running on the old configuration": the schema ends with a
+		// field that only an addFields step among the input's extractions writes; the new file inserts a field in front of it.
+		// The inputs survive a reload and keep writing the old position, so the loader has to refuse (seeded c17-s7 lost track
+		// of fields located by input-level addFields only). An identical, valid reload follows.
+		sc.InputAddField = true
+		nReload = 2
+	}
 	plan := []variant{}
 	for k := 0; k < nReload; k++ {
+		if movedInputField {
+			plan = append(plan, []variant{{"field-inserted-before-input-written-field", false, func(y string, _ *e2e.Agent) string {
+				return visible(strings.Replace(y, "class, zone]", "class, newfield, zone]", 1))
+			}}, variants[0]}[k])
+			continue
+		}
 		if k == 0 {
 			plan = append(plan, variants[idx%len(variants)]) // every kind of new configuration occurs in every tier
 			continue
